@@ -230,8 +230,9 @@ type seq struct {
 	pool []uuid.UUID
 	ops  []op
 	// API entries handed to Gate, by id (the most recent object per id)
-	mine map[uuid.UUID]*internaltablist.Entry
-	dead bool
+	mine        map[uuid.UUID]*internaltablist.Entry
+	dead        bool
+	lastPackets []string
 }
 
 func (s *seq) id() uuid.UUID { return s.pool[s.rng.Intn(len(s.pool))] }
@@ -273,7 +274,7 @@ func (s *seq) violation(sig, what string, w map[string]any) {
 }
 
 func (s *seq) witness(extra map[string]any) map[string]any {
-	w := map[string]any{"protocol": s.p, "operations": s.ops}
+	w := map[string]any{"protocol": s.p, "operations": s.ops, "packets_of_last_operation": s.lastPackets}
 	for k, v := range extra {
 		w[k] = v
 	}
@@ -317,6 +318,8 @@ func (s *seq) step(kind, detail string, class string, f func()) {
 	var feedErr error
 	var nonCanon []string
 	var lastBody []byte
+	var pktlog []string
+	defer func() { s.lastPackets = pktlog }()
 	for _, o := range s.v.out {
 		if o.kind != "update" && o.kind != "remove" {
 			continue // header/footer etc. are not part of this property
@@ -341,8 +344,10 @@ func (s *seq) step(kind, detail string, class string, f func()) {
 				}
 			}
 		}
-		_ = healed.Feed(o.kind, hb)
+		herr := healed.Feed(o.kind, hb)
+		pktlog = append(pktlog, fmt.Sprintf("%s gate=%x canonical-order=%x canonical-decode-err=%v", o.kind, o.body, hb, herr))
 	}
+	s.lastPackets = pktlog
 	gate := s.tl.Entries()
 	s.r.Count("states_compared", 1)
 	s.r.Count("entries_compared", len(gate))
@@ -351,16 +356,24 @@ func (s *seq) step(kind, detail string, class string, f func()) {
 		s.cl = actual
 		return
 	}
+	if panicked != nil {
+		// the panic (already reported) cut the operation short: what the map and the client
+		// disagree on now is its consequence, not another defect
+		s.r.Count("sequences_ended_after_a_panic_left_the_model_ahead_of_the_client", 1)
+		s.dead = true
+		return
+	}
 	what := det
 	if feedErr != nil {
 		clause, what = "packet-undecodable", feedErr.Error()
 	}
-	// Order defect: it is that iff the same packets with the entry data in the protocol's
-	// action order bring the client closer to Gate's state than the bytes Gate produced.
+	// Order defect: it is that iff the client ends up in another state (or cannot decode at
+	// all) when it is given Gate's bytes than when it is given the same packets with the entry
+	// data in the protocol's action order.
 	cur := actual
 	if nonCanon != nil {
 		c2, d2, id2 := diff(s.p, gate, healed)
-		if feedErr != nil || c2 != clause || d2 != det {
+		if dc, _ := diffClients(s.p, actual, healed); feedErr != nil || dc != "" {
 			s.violation("viewer-upsert-entry-data-in-api-action-order",
 				fmt.Sprintf("after %s the client state differs from Gate's (%s): Gate laid out the entry data in the order of the action list [%s], the client reads it in the protocol's action order", kind, what, strings.Join(nonCanon, ",")),
 				s.witness(map[string]any{"difference": what, "api_action_order": nonCanon, "gate_bytes": fmt.Sprintf("%x", lastBody)}))
@@ -377,7 +390,7 @@ func (s *seq) step(kind, detail string, class string, f func()) {
 			s.violation(kind+"/"+clause, fmt.Sprintf("after %s (%s): %s", kind, detail, what), s.witness(map[string]any{"difference": what}))
 			s.dead = true
 			return
-		case (clause == "profile-name" || clause == "profile-properties") && strings.HasPrefix(kind, "api-add") && ce != nil && ge != nil:
+		case (clause == "profile-name" || clause == "profile-properties") && (strings.HasPrefix(kind, "api-add") || kind == "api-readd-removed-entry") && ce != nil && ge != nil:
 			// API Add over an id the client already holds, with another profile: nothing on the
 			// wire can change the client's profile (putIfAbsent), Gate reports the new one.
 			s.violation("api-add-existing-id-with-other-profile/client-keeps-old-profile",
@@ -504,7 +517,19 @@ func (s *seq) randomOp() {
 		}
 		s.step("api-remove", fmt.Sprintf("%d ids", len(ids)), "api_remove", func() { _ = s.tl.RemoveAll(ids...) })
 	case k < 14:
-		s.step("api-remove-all", "", "api_remove_all", func() { _ = s.tl.RemoveAll() })
+		if rng.Intn(2) == 0 {
+			s.step("api-remove-all", "", "api_remove_all", func() { _ = s.tl.RemoveAll() })
+			return
+		}
+		// hide and show again: remove an entry Gate reports, then add that very object back
+		id, cur, okk := s.existing()
+		if !okk {
+			return
+		}
+		s.step("api-remove", fmt.Sprintf("%x (to be re-added)", id[:2]), "api_remove", func() { _ = s.tl.RemoveAll(id) })
+		if !s.dead {
+			s.step("api-readd-removed-entry", fmt.Sprintf("%x", id[:2]), "api_readd_removed_entry", func() { _ = s.tl.Add(cur) })
+		}
 	case k < 15: // entry setters on what Gate reports
 		_, cur, okk := s.existing()
 		if !okk {
